@@ -22,12 +22,27 @@ EXPLANATION = (
     'ratio/ratio_node0/dratio_dnode0 (geometric), interpolate_edge, bary4/3/3d, clip_bary2/3/4 compared bit for bit on '
     'random and adversarial simplices; the quadrature edge length is validated around an uninterpreted ref_matrix_exp_m. '
     'Oracle: exact rational identities (fractions of the hex doubles) with conditioning-scaled tolerances, '
-    'finite differences for the derivatives.')
+    'finite differences for the derivatives. '
+    'Quality (Props/C15Quality, stream quality): ref_node_{tet,tri}_{epic,jac}_quality, the four ..._dquality_dnode0 and '
+    'the two dispatching pairs are modelled one by one (Model/Quality.lean) and bit-compared with the C (static ones by '
+    'white-box inclusion of ref_node.c) on random/adversarial cells with four different SPD vertex metrics, every even '
+    'vertex permutation, both selectors. Proved: the quality returned by every dquality routine equals the plain quality '
+    '(status included, all selector values); sum of e^T M e is an exact quadratic in node 0 with the coded d_l2 as linear '
+    'term; on the smooth branch the jac tet quality is 36/3^(1/3) (sqrt(det M) vol)^(2/3) / sum e^T M e and the coded '
+    'gradient is its derivative (Mathlib HasDerivAt along every line through node 0); the epic tet quality is invariant '
+    'under the 3-cycles (0 1 2) and (1 2 3), hence under all even permutations. Oracle: dquality value == plain value, '
+    'derivative vs central difference of the plain quality, even-permutation invariance, an independent pure-Python '
+    'reference value (quality one on the metric-regular simplex, q <= 1 for jac, sign vs min_volume).')
 ASSUMPTIONS = [
     'IEEE rounding in every REF_DBL kernel is modelled (Float instance, bit-compared), not verified: theorems hold in '
     'exact real arithmetic',
     'quality in (0,1], quality = 1 on the metric-regular simplex and affine invariance (jac/epic quality: exp_m, log_m, '
-    'pow 2/3) are NOT proved and not tied by this package',
+    'pow 2/3) are NOT proved (oracle only: independent reference value on every generated case); they are tied (stream quality)',
+    'derivative exactness is proved for the jac tet path only; for the epic paths and the triangle paths the derivative is '
+    'tied bit for bit and checked against finite differences, not proved (the edge-length derivative ref_node_dratio_dnode0 '
+    'is a log-mean with branches); even-permutation invariance is proved for the epic tet only (jac: oracle)',
+    'ref_node->ratio_method is REF_NODE_RATIO_GEOMETRIC in the quality model and stream (the quadrature variant is not composed '
+    'into the quality functions)',
     'ratio_scale is proved for s >= 1 with end-point lengths >= 1e-12: below that cut-off the C returns '
     'MIN(ratio0, ratio1) instead of the logarithmic mean, so exact linear scaling is false there',
     'ref_matrix_exp_m is an uninterpreted input of the quadrature edge length (stream geom_ratio_quad): its output is '
